@@ -12,6 +12,7 @@ import (
 type builtinJSONParseContext struct {
 	reviver Value
 	call    FunctionCall
+	depth   int // nesting of builtinJSONReviveWalk
 }
 
 func builtinJSONParse(call FunctionCall) Value {
@@ -50,6 +51,13 @@ func builtinJSONParse(call FunctionCall) Value {
 }
 
 func builtinJSONReviveWalk(ctx builtinJSONParseContext, holder *object, name string) Value {
+	// The walk recurses in Go once per nesting level and the reviver can make
+	// the structure cyclic or endlessly deep while it is being walked: the
+	// nesting counts against the configured stack depth limit.
+	ctx.depth++
+	if rt := ctx.call.runtime; rt.stackLimit != 0 && ctx.depth >= rt.stackLimit {
+		panic(rt.panicRangeError("Maximum call stack size exceeded"))
+	}
 	value := holder.get(name)
 	if obj := value.object(); obj != nil {
 		if isArray(obj) {
